@@ -476,6 +476,25 @@ class C04(Check):
                 base = b"\x01\x00" + b"\x11" * (64 * n_out) + pk * n_out
                 pr = b"\x44" * (6176 * n_out) + b"\x22" * (1 * 2 * 32 + 32)
                 owned.append(("tx", b"\x02\x00" + pre + base + pr))
+        # extra-field shapes around the additional-key list: fewer / as many / more keys than outputs, an empty list, two lists,
+        # the list before the transaction key, no transaction key at all, two transaction keys, a key that is no curve point,
+        # a nonce in between, a truncated list, an empty extra
+        def addf(keys):
+            return b"\x04" + leb(len(keys)) + b"".join(keys)
+        owned_x = []
+        aks = [E.compress(E.mul(11 + j, E.B)) for j in range(5)]
+        pkf = b"\x01" + E.compress(R)
+        xs = [pkf + addf(aks[:k]) for k in range(6)] + [addf(aks[:k]) + pkf for k in (0, 1, 3)] + \
+             [addf(aks[:1]), addf(aks[:3]), pkf + pkf, pkf + b"\x01" + aks[0], pkf + addf([b"\xff" * 32]), pkf + addf([aks[0], b"\xff" * 32, aks[1]]),
+              pkf + b"\x02\x09\x01" + b"\x55" * 8 + addf(aks[:1]), pkf + addf(aks[:1]) + addf(aks[:3]), pkf + addf([]) + addf(aks[:3]),
+              pkf + addf(aks[:3])[:-5], pkf + b"\x04\x03" + aks[0], b"", b"\x04", b"\x00" * 7 + pkf]
+        for x in xs:
+            for n_out, tagged in ((3, False), (2, True), (1, True)):
+                outs = b"".join(b"\x05" + out_key(i, tagged) for i in range(n_out))
+                pre = b"\x01\xff\x09" + leb(n_out) + outs + leb(len(x)) + x
+                owned_x.append(("tx", b"\x01\x00" + pre))
+                owned_x.append(("tx", b"\x02\x00" + pre + b"\x05\x00" + b"\x11" * (8 * n_out) + E.compress(E.B) * n_out
+                                + b"\x00" + b"\x22" * 96 + b"\x33" * 32))
         self.n_owned = len(owned)
         hdr = b"\x01\x01\x01" + b"\x11" * 32 + b"\x00" * 4
         for T, b in owned:
@@ -485,6 +504,10 @@ class C04(Check):
             add("parsed_scan %s prefix %s 0 2 0 2" % (sz, hx(b)), "scan-owned")
             add("parsed_ops %s %s %s" % (sz, T, hx(b)), "scan-owned")
         add("parsed_scan %s tx %s 0 64 0 64" % (sz, hx(owned[1][1])), "scan-owned")
+        for T, b in owned_x:
+            for r in ((0, 0, 0, 0), (0, 1, 0, 1), (0, 2, 0, 3), (3, 1, 5, 2), (M - 1, M, M - 1, M)):
+                add("parsed_scan %s %s %s %d %d %d %d" % ((sz, T, hx(b)) + r), "scan-extra-shapes")
+            add("parsed_scan %s prefix %s 0 2 0 2" % (sz, hx(b)), "scan-extra-shapes")
         # corpus / generated objects and their mutations with every range
         k = 0
         for T, b, org in seeds:
